@@ -90,7 +90,7 @@ let run (id : string) (hdr : string list) (lines : string list list) (out : stri
       | ["e"; "Get"; k] :: r -> pr ("G " ^ render_opt (node_get !n (bytes_of_token k))); go r
       | ("e" :: name :: _) :: r -> generic true name; go r
       (* accessor outside the guard *)
-      | ["l"; "begin"; m] :: r ->
+      | ("l" :: "begin" :: m :: _) :: r ->
         let h = nhandles () in
         let res = cl (CLeakBegin (m = "ro")) in
         (match res with
